@@ -1,4 +1,5 @@
 import KcpVerif.Lemmas.C11IsoL
+import KcpVerif.Lemmas.SessInClose
 import KcpVerif.Lemmas.C01SessRef
 import KcpVerif.Lemmas.C01SessFrg
 /-!
@@ -32,25 +33,34 @@ def plain : Cipher := { kind := .nil, dec := id, crc := fun _ => 0, aopen := fun
 
 theorem gate_plain (d : Bytes) : cryptGate plain d = .ok d := rfl
 
-/-- `Listener.packetInput` at clock `now`, also for a listener that has been closed: the `l.die`
-test sits after the old session's `Close` and before `newUDPSession`, so a closed listener still
-routes, ignores and closes but creates nothing -/
+/-- `Listener.packetInput` at clock `now`, also for a listener that has been closed: the model's
+`listenerInputD` (the `l.die` test sits after the old session's `Close` and before `newUDPSession`, so a
+closed listener still routes, ignores and closes but creates nothing) -/
 def inputD (ciph : Cipher) (now : U32) (l : Listener SessG) (dead : Bool) (d : Bytes) (a : String) : Listener SessG :=
-  if dead then
-    match (listenerInput (world now) ciph l d a).dec with
-    | .create _ _ (some old) _ => closeSess (world now) l old
-    | .create _ _ none _ => l
-    | _ => (listenerInput (world now) ciph l d a).l
-  else (listenerInput (world now) ciph l d a).l
+  (listenerInputD (world now) ciph l dead d a).l
 
-/-- `closeUnaccepted`: close every session still in the accept backlog -/
-def closeAll (now : U32) (l : Listener SessG) : List Nat → Listener SessG
-  | [] => l
-  | id :: rest => closeAll now (closeSess (world now) l id) rest
+/-- in terms of the open listener's decision -/
+theorem inputD_eq (ciph : Cipher) (now : U32) (l : Listener SessG) (dead : Bool) (d : Bytes) (a : String) :
+    inputD ciph now l dead d a =
+      if dead then
+        match (listenerInput (world now) ciph l d a).dec with
+        | .create _ _ (some old) _ => closeSess (world now) l old
+        | .create _ _ none _ => l
+        | _ => (listenerInput (world now) ciph l d a).l
+      else (listenerInput (world now) ciph l d a).l := by
+  unfold inputD
+  cases dead with
+  | false => rw [listenerInputD_false]; rfl
+  | true => rw [listenerInputD_dead]; rfl
 
-/-- `Listener.Close` (first call) -/
-def listenerClose (now : U32) (l : Listener SessG) : Listener SessG :=
-  { closeAll now l l.accepts with accepts := [] }
+/-- `s.Close()` for the sessions with the given indices (the model's `closeAll` at clock `now`) -/
+abbrev closeAll (now : U32) (l : Listener SessG) (ids : List Nat) : Listener SessG := SessIn.closeAll (world now) l ids
+
+/-- `Listener.Close` (first call): the model's `closeUnaccepted` -/
+def listenerClose (now : U32) (l : Listener SessG) : Listener SessG := SessIn.closeUnaccepted (world now) l
+
+theorem listenerClose_model (now : U32) (l : Listener SessG) (dead : Bool) :
+    SessIn.listenerClose (world now) l dead = if dead then l else listenerClose now l := rfl
 
 structure Sys where
   l        : Listener SessG := Listener.empty
@@ -214,7 +224,7 @@ theorem inputD_obj (ciph : Cipher) (now : U32) (l : Listener SessG) (dead : Bool
     rcases listenerInput_obj (world now) ciph l d a j o' hj with h1 | ⟨p, h, hg, hm, hp, hf⟩
     · exact Or.inl h1
     · exact Or.inr (Or.inr ⟨p, h, hg, hm, hp, hf⟩)
-  unfold inputD at hj
+  rw [inputD_eq] at hj
   cases dead with
   | false => exact live hj
   | true =>
@@ -235,7 +245,7 @@ theorem inputD_obj (ciph : Cipher) (now : U32) (l : Listener SessG) (dead : Bool
 
 theorem WF_inputD (ciph : Cipher) (now : U32) (l : Listener SessG) (dead : Bool) (d : Bytes) (a : String) (h : WF l)
     (h2 : WF2 l) : WF (inputD ciph now l dead d a) ∧ WF2 (inputD ciph now l dead d a) := by
-  unfold inputD
+  rw [inputD_eq]
   cases dead with
   | false => exact ⟨WF_listenerInput _ _ l d a h, WF2_listenerInput _ _ l d a h h2⟩
   | true =>
